@@ -488,7 +488,7 @@ def splice_fn(repo, file, item_path, sections, trait=None, nth=0, opts=(), canar
                     while pe < len(code) and toks[code[pe]].text != '|':
                         pe += 1
                     fpat = ''.join(toks[j].text for j in range(code[o + 2], code[pe - 1] + 1)) if pe > o + 2 else '_'
-                    cond = ''.join(toks[j].text for j in range(code[pe + 1], code[-1]))
+                    cond = ''.join(toks[j].text for j in range(code[pe + 1], code[-1]) if toks[j].kind not in ('comment', 'doc'))
                     cond = ' '.join(cond.split())
                     tests.insert(0, (fpat, cond))
                     ed.blank(code[o - 2], code[-1])
@@ -496,7 +496,12 @@ def splice_fn(repo, file, item_path, sections, trait=None, nth=0, opts=(), canar
                 if tests:
                     for fpat, cond in tests:
                         filt_pre += ' { let %s = &cv_f%d; if !(%s) { continue; } }' % (fpat, n, cond)
-                    filt_pre += ' let %s = cv_f%d; ' % (pat, n)
+                    m_refp = re.fullmatch(r'&\s*([A-Za-z_][A-Za-z0-9_]*)', pat)
+                    if m_refp:
+                        # `for &x in ..`: the reference pattern (outside Verus) is written as `let x = *element;`
+                        filt_pre += ' let %s = *cv_f%d; ' % (m_refp.group(1), n)
+                    else:
+                        filt_pre += ' let %s = cv_f%d; ' % (pat, n)
                     rules['X2h-for-filter'] = rules.get('X2h-for-filter', 0) + len(tests)
                     dropped.append('%s:%d `for %s in ITER%s` written as the loop over ITER that skips (`continue`) an element failing the test (X2h)' % (
                         file, toks[kw].line, pat, ''.join('.filter(|%s| %s)' % t for t in tests)))
